@@ -16,6 +16,10 @@ checks["C06"] = dict(
    text="Proof that LinkedListQueue is an ideal deque for every finite history: a representation invariant (doubly linked list = ghost sequence nodes[lo..lo+count), free list = pn[plo..plo+nodeCount), both injective and disjoint, end links nil, every list node carries a value) is required and re-established by every method (Offer/Put/Push, Unshift, Poll/Take/Shift, Pop, Peek, Count, Clear, KeepNodePoolCount, ClearNodePool; helpers generateNode/recycleNode by their own contracts, putAllIntoPool inlined with loop invariants), each method's result and new abstract sequence are those of the ideal deque (removals return the head/tail value, ErrQueueIsEmpty/ErrStackIsEmpty exactly when empty, Count = length, all other stored values unchanged), pool maintenance leaves the stored values untouched, and no nil dereference is reachable under the invariant. NewLinkedListQueue establishes the invariant; induction over the history is the usual invariant argument.",
    note="Trusted: govc's heap model (per-field heaps, references of different Go types never alias), sync.Pool model: Get returns a non-nil node that the queue does not reference and that satisfies the pool invariant (Next/Prev/Val nil) which is proved at every Put; objects that existed at entry have birth <= 0 (assumed for the nodes named by the ghost witnesses); the step from 'invariant preserved by every method' to 'every history' is the standard induction and is not machine-checked; SMT solvers.",
    ref="5 C06")
+checks["C08"] = dict(
+   text="Proof of the ownership discipline from which linearizability follows: in each of the 6 methods of ConcurrentQueue/ConcurrentStack the call on the wrapped (non-thread-safe) object happens while the wrapper's RWMutex is held in exclusive mode (a read lock is rejected, since every delegated method mutates the wrapped structure - see C06), there is exactly one such call on every path, arguments and results are passed through unchanged, the lock is released in the matching mode on every return path, and the receiver holding the mutex is a pointer (a value receiver would lock a copy). No schedule is explored: the obligations are per call site and path.",
+   note="Trusted: sync.RWMutex semantics; the meta-theorem (Herlihy-Wing) that 'acquire exclusive lock; one call on a sequential object; release' is linearizable w.r.t. the sequential specification with the delegated call as linearization point; the wrapped object is used only through the wrapper; the wrapped object is non-nil. Linearizability itself (a statement over all interleavings) is NOT explored or proved by the machine - only this sufficient discipline is.",
+   ref="5 C08")
 na = {
  "C07": "quantifies over producer/consumer/loader interleavings and includes liveness (nothing stranded, wake-ups not lost); no per-function contract expresses cross-goroutine exactly-once hand-over or eventual loading (DESIGN.md 6).",
  "C09": "every clause is about goroutine scheduling, timers and recovery from panics in other goroutines; the named defect is a lost wake-up (liveness under a fault) (DESIGN.md 6).",
